@@ -611,10 +611,15 @@ class MQTTProtocol(MQTTBaseProtocol):
         Tries to restore the session state upon a new MQTT connection made (publisher)
         '''
         #log.debug("{event}", event="Sync Persistent Session")
+        # Only what previous connections left behind (their alarms were cleared when
+        # the connection was lost). Packets already sent on this connection, before
+        # its CONNACK arrived, are being handled by their own retry timer.
         for _, reply in self.factory.windowPubRelease[self.addr].items():
-            self._retryRelease(reply, dup=True)
+            if reply.alarm is None:
+                self._retryRelease(reply, dup=True)
         for _, request in self.factory.windowPublish[self.addr].items():
-            self._retryPublish(request, dup=True)
+            if request.alarm is None:
+                self._retryPublish(request, dup=True)
 
     # --------------------------------------------------------------------------
 
